@@ -22,7 +22,7 @@ CLAIMS.update({
     technique='Coq model (Engine + Spec) with proved lemmas, differential correspondence impl vs extracted Engine vs extracted Spec', ref='7 C01', category='proof'),
  'C02': dict(
     text='Proof (Coq): for EVERY labelling of the rule table, materialising group by group and uniting equals materialising rule by rule (grouping_irrelevant, grouping_fails_iff, modes_agree; '
-         'unbounded, by induction over the rule list), and the partitioners are total exactly on rule tables whose templates all contain a reference (partition_total, partition_fails_iff). '
+         'unbounded, by induction over the rule list), and the partitioners are total exactly on rule tables whose templates all contain a reference (partition_total, partition_fails_iff). At document level, whatever groups are formed, the grouped run gives exactly the document of the generation rules: for plain documents and for documents with referencing object maps, quoted subject maps, quoted object maps (any_partitioning_gives_the_generation_rules_document and its three forms, Proofs/DocUnionP.v, DocGroupedP.v). '
          'Tied to the code by running every generated case under NO / PARTIAL-AGGREGATIONS / MAXIMAL and comparing the three results with each other and with the model.',
     note='The theorem is about the model of __init__.py/__main__.py grouping (groupby + per-group set + union); pandas groupby and multiprocessing are not modelled. Known finding: reference-free template.',
     technique='Coq proof (union over any labelling) + differential correspondence across the three partitioning modes', ref='7 C02'),
@@ -114,7 +114,7 @@ CLAIMS.update({
     technique='Coq proof (scan separates only incomparable keys; incomparable keys never collide) + differential check of the real partition', ref='0.3 C03'),
  'C06': dict(
     text='Proof (Coq) + correspondence. Theorems: _preprocess_data keeps exactly the rows with no NULL and no na_values token in a referenced column (null_suppresses_exactly, null_in_referenced_column, '
-         'na_token_in_referenced_column) and no null is ever cast to text (null_never_becomes_text), for every frame, reference set and na_values list. What each reader hands over for a NULL is modelled '
+         'na_token_in_referenced_column) and no null is ever cast to text (null_never_becomes_text), for every frame, reference set and na_values list; at document level a statement exists iff some asserted rule has a delivered row with no NULL / na token in any referenced column (statements_come_from_null_free_rows); a NULL or na token in a join key joins with nothing, not even another NULL, in the generation rules and in the engine merge (null_join_key_joins_nothing, engine_merged_rows_have_every_join_key). What each reader hands over for a NULL is modelled '
          '(Model/Data.v arrive) and measured on every run over all source kinds x na_values settings x NULL positions, against the Engine model and the Spec, plus a scan of the output for null words not in the data.',
     note='Two genuine defects found by this check were repaired (fix: 52bd578, ecec88a). Readers are third-party: modelled, not verified.',
     technique='Coq proof of the null filter + ' + CORR, ref='0.3 C06'),
@@ -127,12 +127,12 @@ CLAIMS.update({
  'C08': dict(
     text='Proof (Coq) + correspondence. Theorems over the normalisation chain and the row tail of the materializer: a predicate-object map is placed in exactly its own and the subject map\'s graphs '
          '(pom_gets_exactly_its_graphs), the default graph iff none or rml:defaultGraph (default_graph_iff_none, default_graph_has_empty_component), class statements follow the subject graphs, N-TRIPLES output is the '
-         'graph-less projection (ntriples_is_graphless; rules_ntriples_is_projection_of_nquads for the generation rules on every document; engine_ntriples_is_projection_of_nquads for the engine on documents of constant / reference / template maps). Correspondence: 0-3 constant / template / reference graph maps, NULL graph values, both formats, against the Engine model and the Spec.',
+         'graph-less projection (ntriples_is_graphless; rules_ntriples_is_projection_of_nquads for the generation rules on every document; engine_ntriples_is_projection_of_nquads for the engine on documents of constant / reference / template maps); the statement of a joined row takes its graph from the child row alone (joined_statement_takes_its_graph_from_the_child_row). Correspondence: 0-3 constant / template / reference graph maps, NULL graph values, both formats, against the Engine model and the Spec.',
     note='Known finding shared with C14: function-valued graph map under N-TRIPLES.', technique='Coq proof (graph placement) + ' + CORR, ref='0.3 C08'),
  'C09': dict(
     text='Proof (Coq) + correspondence. The model\'s abstract syntax identifies vocabularies and constant shortcuts; inside it the three factorings the property names are theorems on the normalisation chain, for every '
          'document: classes as rdf:type predicate-object maps (classes_as_type_poms), subject graph maps repeated on every predicate-object map (subject_graphs_on_every_pom), the fully explicit spelling '
-         '(explicit_spelling), multi-valued against split predicate-object maps (multi_valued_as_split, for documents without mixed maps; refuted for a mixed one in Findings/C09.v) -- identical rule tables. '
+         '(explicit_spelling), multi-valued against split predicate-object maps (multi_valued_as_split, for documents without mixed maps; refuted for a mixed one in Findings/C09.v) -- identical rule tables; the order of the triples maps in the file is irrelevant for every document with distinct identifiers (order_of_triples_maps_is_irrelevant, generation rules, Proofs/DocOrderP.v). '
          'Vocabulary (R2RML / RML / legacy / YARRRML), shortcuts, serialisations (Turtle, shuffled N-Triples, RDF/XML, prefixes, base, blank-node labels, extension) are compared pairwise on the implementation for every generated mapping.',
     note='rdflib parsers, SPARQL and the vocabulary rewrites are outside the Coq model (correspondence only). YARRRML is rendered for the fragment its translator supports (no functions / RML-star in YARRRML). Genuine defect repaired (fix: f1b9f2f).',
     technique='Coq proof (normalisation invariant under the factorings) + differential check over spellings', ref='0.3 C09'),
@@ -140,18 +140,18 @@ CLAIMS.update({
     text='Proof (Coq), partial + correspondence. The readers are third-party code: Model/Data.v arrive states what each one hands over, and that statement is measured on every run (one abstract table rendered into every '
          'source kind and through file_path, each result against the CSV result and the model). Theorems: given those reader models, for tables of strings and NULLs what reaches term construction is the same in CSV / TSV / Excel '
          '(text readers), XML, tabular views, columnar files and SQL queries: exactly the rows whose referenced cells are non-null strings, every referenced column reading exactly the string of the table '
-         '(format_independent_reading_partial, two_formats_same_frame_partial) -- no character added, dropped or altered, NULL in one is NULL in all (the empty string being a null token, as by default).',
+         '(format_independent_reading_partial, two_formats_same_frame_partial) -- no character added, dropped or altered, NULL in one is NULL in all (the empty string being a null token, as by default). At document level two deliveries handing over the same row sets give the same statements, end to end, for plain documents and for documents with referencing object maps / quoted subject maps / quoted object maps (same_delivered_rows_same_statements and its three forms, Proofs/DocRowsP.v, DocRowSetsP.v).',
     note='Partial: JSON, SQL tables and in-memory sources by correspondence only. Known findings: DataFrame quote stripping, DuckDB type / dialect detection for tabular views. In-memory sources were repaired (fix: bead264).',
     technique='Coq proof (format-independent frame, given the reader models) + differential check over source formats', ref='0.3 C10'),
  'C11': dict(
     text='Proof (Coq) + correspondence. Theorems: for a plain rule the engine over a frame is the concatenation of a function of each row (engine_is_rowwise), hence additive over unions of row sets (rows_additive) and '
-         'insensitive to duplicates and order (duplicates_and_order_irrelevant); _preprocess_data is additive and has set semantics (preprocess_additive, preprocess_set_semantics). Correspondence: whole vs halves vs '
+         'insensitive to duplicates and order (duplicates_and_order_irrelevant); _preprocess_data is additive and has set semantics (preprocess_additive, preprocess_set_semantics). At document level (plain documents): every statement comes from one row, the result over a union of row sets is the union of the results, for the generation rules and end to end for the engine; for EVERY document (joins, quoted maps of any depth, functions) the generation rules read each table as a set of rows (every_document_depends_on_row_sets_only, Proofs/DocRowSetsP.v). Correspondence: whole vs halves vs '
          'permuted + duplicated tables for string and typed sources, typed cases also against the reader model (column coercion, binary64 rounding).',
     note='Known finding: column dtype coercion (10 -> 10.0 next to NULL / float), refuted witness in Findings/C11.v.', technique='Coq proof (row-wise engine) + differential check over row splits', ref='0.3 C11'),
  'C12': dict(
     text='Proof (Coq), partial + correspondence. Engine-level theorems for RDF-star-free rule tables: a rule\'s statements depend on the rest of the table only through the parent rule it names '
          '(rule_depends_only_on_its_references_partial); a table made of two reference-closed parts yields the union of their results and fails iff one fails (document_is_union_of_parts_partial); renumbering the rules '
-         'and rewriting parent references changes nothing (rule_numbering_is_irrelevant_partial). Correspondence: every document against every dependency-closed layout over files and sections, reordering, '
+         'and rewriting parent references changes nothing (rule_numbering_is_irrelevant_partial). Document level: for plain documents Spec(d1 ++ d2) = Spec(d1) U Spec(d2) and the engine's result is the union of its results (plain_document_means_the_union_of_its_parts, engine_on_a_plain_document_is_the_union_over_its_parts); for EVERY document the order of the triples maps is irrelevant and every statement of a part is a statement of the whole (triples_map_order_is_irrelevant, every_part_is_included_in_the_whole_partial, Proofs/DocOrderP.v; the converse for closed parts of arbitrary nesting needs an acyclic reference graph and is not proved). Correspondence: every document against every dependency-closed layout over files and sections, reordering, '
          'the union of components run alone, and the rejection of an identifier repeated across sections.',
     note='Partial: quoted maps, rdflib graph merging and validate_mappings are decided by the correspondence only. Genuine defect repaired (fix: c61aea7).',
     technique='Coq proof (union over closed parts, renaming invariance) + differential check over document layouts', ref='0.3 C12'),
